@@ -83,11 +83,19 @@ theorem mask_bits {names : List Name} (hn : names.Nodup) (h8 : names.length = 8)
     (maskLSB names sel).testBit i = true ↔ ∃ n, names[i]? = some n ∧ n ∈ selectionToList names sel := by
   rw [maskLSB_eq_spec hn h8, specMaskLSB_testBit]
 
+/- non-vacuity: the hypotheses hold for the generated table, and both directions occur -/
+example : tableNames.Nodup ∧ tableNames.length = 8 ∧
+    (maskLSB tableNames (.str " cam,bogus".toList)).testBit 2 = true ∧
+    (maskLSB tableNames (.str " cam,bogus".toList)).testBit 1 = false := by decide
+
 /-- **mask_bits_v2**: bit i of the v2 mask is set iff name 7 - i is in the selection list -/
 theorem mask_bits_v2 {names : List Name} (hn : names.Nodup) (h8 : names.length = 8) (sel : Selection) (i : Nat) :
     (maskMSB names sel).testBit i = true ↔
       i < 8 ∧ ∃ n, names[7 - i]? = some n ∧ n ∈ selectionToList names sel := by
   rw [maskMSB_eq_spec hn h8, specMaskMSB_testBit h8]
+
+example : (maskMSB tableNames (.seq ["cam".toList])).testBit 5 = true ∧
+    (maskMSB tableNames (.seq ["cam".toList])).testBit 2 = false := by decide
 
 /-- closed form: the mirror of the packing code equals the documented sum of powers of two -/
 theorem mask_eq_spec {names : List Name} (hn : names.Nodup) (h8 : names.length = 8) (sel : Selection) :
@@ -95,11 +103,16 @@ theorem mask_eq_spec {names : List Name} (hn : names.Nodup) (h8 : names.length =
     maskMSB names sel = specMaskMSB names (selectionToList names sel) :=
   ⟨maskLSB_eq_spec hn h8 sel, maskMSB_eq_spec hn h8 sel⟩
 
+example : specMaskLSB tableNames ["static".toList, "postproc".toList] = 130 ∧
+    specMaskMSB tableNames ["static".toList, "postproc".toList] = 65 := by decide
+
 /-- **v2 reversal**: the v2 mask is the v3/v4 mask with the 8 bits in reverse order -/
 theorem v2_reversal {names : List Name} (hn : names.Nodup) (h8 : names.length = 8) (sel : Selection)
     (i : Nat) (hi : i < 8) : (maskMSB names sel).testBit i = (maskLSB names sel).testBit (7 - i) := by
   rw [Bool.eq_iff_iff, mask_bits_v2 hn h8, mask_bits hn h8]
   simp [hi]
+
+example : maskMSB tableNames (.str "static".toList) = 64 ∧ maskLSB tableNames (.str "static".toList) = 2 := by decide
 
 theorem mask_lt_256 {names : List Name} (hn : names.Nodup) (h8 : names.length = 8) (sel : Selection) :
     maskLSB names sel < 256 ∧ maskMSB names sel < 256 := by
@@ -133,11 +146,15 @@ theorem mask_all {names : List Name} (hn : names.Nodup) (h8 : names.length = 8) 
       have h : i < 8 := by simpa using h
       exact ⟨h, key (7 - i) (by omega)⟩
 
+example : maskLSB documentedNames (.str allWord) = 255 ∧ maskLSB documentedNames (.seq [allWord]) = 0 := by decide
+
 /-- an empty string or an empty sequence selects no bit (any table) -/
 theorem mask_empty (names : List Name) :
     maskLSB names (.str []) = 0 ∧ maskLSB names (.seq []) = 0 ∧
     maskMSB names (.str []) = 0 ∧ maskMSB names (.seq []) = 0 := by
   refine ⟨?_, ?_, ?_, ?_⟩ <;> simp [maskLSB, maskMSB, selectionToList, markSelected] <;> decide
+
+example : maskLSB [] (.str []) = 0 ∧ maskLSB tableNames (.str " ".toList) = 0 := by decide
 
 /-- only membership of the table's names matters: order, repetition and unknown names are irrelevant -/
 theorem mask_congr {names : List Name} (hn : names.Nodup) (h8 : names.length = 8) (l l' : List Name)
@@ -157,6 +174,9 @@ theorem mask_congr {names : List Name} (hn : names.Nodup) (h8 : names.length = 8
     · exact ⟨hi, n, h1, (h n (List.mem_of_getElem? h1)).mp h2⟩
     · exact ⟨hi, n, h1, (h n (List.mem_of_getElem? h1)).mpr h2⟩
 
+example : maskLSB tableNames (.seq ["cam".toList, "x".toList, "cam".toList, "static".toList]) =
+    maskLSB tableNames (.seq ["static".toList, "cam".toList]) := by decide
+
 /-- unknown names contribute nothing -/
 theorem mask_unknown_ignored {names : List Name} (hn : names.Nodup) (h8 : names.length = 8)
     (u : Name) (hu : u ∉ names) (l : List Name) :
@@ -166,6 +186,9 @@ theorem mask_unknown_ignored {names : List Name} (hn : names.Nodup) (h8 : names.
   intro n hnm
   have : n ≠ u := fun h => hu (h ▸ hnm)
   simp [this]
+
+example : "bogus".toList ∉ tableNames ∧
+    maskLSB tableNames (.seq ["bogus".toList, "cam".toList]) = maskLSB tableNames (.seq ["cam".toList]) := by decide
 
 /-- the setters raise (AssertionError) exactly when the table does not have 8 names -/
 theorem setter_rejects (names : List Name) (sel : Selection) :
@@ -251,6 +274,9 @@ theorem flags_formula (mask raw : Nat) :
       intro h0; rw [h0, Nat.zero_testBit] at this; cases this
     simpa using hne
 
+example : flagOf 12 8 = true ∧ flagOf 12 0x13 = false ∧ (12 : Nat).testBit 3 = true ∧ (8 : Nat).testBit 3 = true := by
+  decide
+
 /-- the executable 8-bit spec agrees on byte masks -/
 theorem flags_formula_byte (mask raw : Nat) (hm : mask < 256) : flagOf mask raw = specFlag mask raw := by
   rw [Bool.eq_iff_iff, flags_formula]
@@ -265,6 +291,8 @@ theorem flags_formula_byte (mask raw : Nat) (hm : mask < 256) : flagOf mask raw 
   · rintro ⟨i, _, h⟩
     simp only [Bool.and_eq_true] at h
     exact ⟨i, h⟩
+
+example : specFlag 12 8 = true ∧ specFlag 12 0x13 = false := by decide
 
 /-- the v4 indexer (which skips the AND when everything is selected and views the byte as bool) computes
     the same function as the HDF5 transform on bytes -/
@@ -364,6 +392,8 @@ theorem c16_independent {α} (f : Fmt) (nT nF nB : Nat) (h : List Call) (vis : L
     (raw : List (List (List Nat))) :
     observe (run f (init f nT nF nB) h) vis raw = observe (run f (init f nT nF nB) (eraseFW h)) vis raw :=
   observe_core _ _ (core_run_erase f h _ _ rfl (inv_init f nT nF nB)) vis raw
+
+/- non-vacuity: see `demoHist` below (a history whose erased version is different and shorter) -/
 
 /-- two histories that differ only in their flag / weight selections are indistinguishable in T/F/B,
     visibilities and raw flags -/
